@@ -85,6 +85,29 @@ Theorem C25_end : forall F b,
 Proof. intros. split; [reflexivity | intros; now apply finish_once]. Qed.
 Print Assumptions C25_end.
 
+(* ... and in every well-founded forest of any size (some rank decreases
+   towards the top, primary unders name their over) the pile is free of
+   duplicates, so ending exits every active box exactly once. *)
+Theorem C25_end_once : forall F b,
+  wf_forest F ->
+  NoDup (pile F b) /\
+  forall x, In x (pile F b) -> count_occ Nat.eq_dec (rev (pile F b)) x = 1.
+Proof.
+  intros F b W. pose proof (pile_nodup F b W) as N. split; auto.
+  intros. now apply finish_once.
+Qed.
+Print Assumptions C25_end_once.
+
+Example C25_wf_example :
+  wf_forest (forest_of [None; Some 0; Some 1; Some 1; Some 0] [1; 1; 1; 1; 1; 1; 1; 1; 1; 1]).
+Proof.
+  exists (fun b => b). split.
+  - intros b o. do 5 (destruct b as [|b]; [vm_compute; intros H; inversion H; subst; lia|]).
+    unfold over. simpl. destruct b; discriminate.
+  - intros b u. do 5 (destruct b as [|b]; [vm_compute; intros H; inversion H; subst; reflexivity|]).
+    unfold under0. simpl. destruct b; discriminate.
+Qed.
+
 (* Each box's actions in a context run in declaration order: the i-th event
    of an act list is the call of its i-th act (mark lists before act lists
    by the definitions of box_rendo/box_endo). *)
